@@ -75,6 +75,18 @@ PROPS = {
         "design_ref": "DESIGN.md §4 K1 K4, §5 C02",
         "level_text": "Instructions survive encode's in-place id rewrite when nothing was edited (identity maps leave every operator unchanged: corollary of the exact remap contract), value types survive the IR, float / v128 constants keep their bits. Everything about sections is glue.",
     },
+    "C03": {
+        "title": "Parsing never panics",
+        "units": ["V10_parse", "V7_types", "V6_api"],
+        "obligations": ["V10_parse.InitExpr.eval.*", "V10_parse.fn:InitExpr::eval", "V10_parse.DataSegmentKind.*", "V10_parse.fn:DataSegmentKind::from_wasmparser",
+                        "V10_parse.Global.*", "V10_parse.fn:Global::from_wasmparser", "V10_parse.fn:Error as From::from",
+                        "V7_types.fn:ModuleTypes::new", "V6_api.fn:LocalFunction::new"],
+        "glue": ["Module::parse_internal and Component::parse_comp themselves (wasmparser payload loops, 480 + 300 lines) are NOT under contract: their own panic sites (indexing code_sections from an unvalidated name section, unwrap of an empty producers section, panic! on a tag-section error, todo!() on unknown payloads, u32 sums of local counts) are not decided by this check",
+                 "ElementKind / ElementItems / DataSegment::from_wasmparser and ModuleImports / ModuleGlobals::new are not under contract",
+                 "TRUSTED model of the operator reader: read() returns any operator or an error and consumes at least one byte when it succeeds"],
+        "design_ref": "DESIGN.md §5 C03",
+        "level_text": "Partial: the callees of the parse path that are separate functions - the constant-expression reader (for ANY operator sequence the reader may yield, including read errors), the data-segment-kind and global converters, the type-table constructor, LocalFunction::new - are proved free of panics, overflow and non-termination. The two payload loops themselves are glue.",
+    },
     "C04": {
         "title": "Encoding is deterministic",
         "units": ["V7_types"],
@@ -313,7 +325,6 @@ PROPS = {
 HOOK_COMMITS = ["6108179", "dd5c5ea"]
 
 NOT_APPLICABLE = {
-    "C03": "partial only and not built at this commit: panic-freedom of the parse path lives in Module::parse_internal / Component::parse_comp (480 + 300 lines of wasmparser payload handling: outside Verus' supported subset and far beyond CBMC's memory, see DESIGN.md §1); the extractable callees alone decide nothing the statement says",
     "C16": "behavioural equivalence of original and instrumented module needs a WebAssembly execution semantics and a simulation proof; neither installed deductive verifier has one, and a syntactic contract cannot express it",
     "C23": "the side-effect report is assembled inside encode_internal and in closure-based add_injections that push into HashMap<InjectType, Vec<_>> through the entry API: outside Verus' supported subset, and a non-empty HashMap is out of Kani's reach (>100 s per operation, memory blow-up)",
     "C27": "the nesting-stack logic and section replay are inline in Component::parse_comp / encode_comp (wasmparser payload streams, recursion over nested components); no separately contractable function decides anything the statement says",
